@@ -747,6 +747,7 @@ int cif_parse_internal(struct scanner_s *scanner, int not_utf8, const char *extr
     scanner->buffer = (UChar *) malloc(BUF_SIZE_INITIAL * sizeof(UChar));
     scanner->buffer_size = BUF_SIZE_INITIAL;
     scanner->buffer_limit = 0;
+    scanner->cr_pending = 0;
 
     if (scanner->buffer == NULL) {
         SET_RESULT(CIF_MEMORY_ERROR);
@@ -3109,18 +3110,8 @@ static int get_first_char(struct scanner_s *scanner) {
             /* recover by accepting the character (for the moment) */
         } else if (ch == UCHAR_CR) { /* convert CR and CRLF to LF */
             *scanner->buffer = UCHAR_NL;
-
-            /* try to convert one more character, to check for CRLF */
-            nread = scanner->read_func(scanner->char_source, scanner->buffer + 1, scanner->buffer_size - 1,
-                    &read_error);
-            if (nread < 0) {
-                return read_error;
-            } else if (nread == 0) {
-                scanner->at_eof = CIF_TRUE;  /* but don't return CIF_EOF, because we do provide one character */
-            } else if (*(scanner->buffer + 1) != UCHAR_NL) {
-                scanner->buffer_limit += 1;
-            } /* else the buffer limit will overall be increased by 1 only, effectively consuming the NL */
-
+            /* if the next character turns out to be a LF then it belongs to this terminator, and will be dropped */
+            scanner->cr_pending = 1;
         }
 
         scanner->buffer_limit += 1;
@@ -3201,47 +3192,37 @@ static int get_more_chars(struct scanner_s *scanner) {
         scanner->at_eof = CIF_TRUE;
         return CIF_EOF;
     } else {
-        /* convert line terminators */
-        UChar *lead = scanner->buffer + scanner->buffer_limit; /* a pointer to the character being probed */
-        UChar *bound = lead + nread;
-        UChar *trail;
-        UChar *dest;
+        /* convert line terminators: each CR and each CR LF pair becomes a single LF */
+        UChar *start = scanner->buffer + scanner->buffer_limit;
+        UChar *bound = start + nread;
+        UChar *src = start;
+        UChar *dest = start;
 
-        do {
-            lead = u_memchr(lead, UCHAR_CR, bound - lead);
-            if ((!lead) || ((lead + 1 < bound) && (*(lead + 1) == UCHAR_NL))) {
-                break;
-            } else {
-                *lead = UCHAR_NL;
-            }
-        } while (CIF_TRUE);
+        if (scanner->cr_pending && (*src == UCHAR_NL)) {
+            /* this LF completes a CR LF pair whose CR was the last character previously buffered */
+            src += 1;
+        }
+        scanner->cr_pending = 0;
 
-        dest = lead;
-        while (lead) {
-            ptrdiff_t length;
+        while (src < bound) {
+            UChar c = *(src++);
 
-            trail = ++lead;  /* trail points to the LF of the latest-read CRLF terminator */
-            do {
-                assert(lead <= bound);
-                lead = u_memchr(lead, UCHAR_CR, bound - lead);  /* look for the next CR */
-                if (!lead) {
-                    /* end of input */
-                    length = bound - trail;
-                    break;
-                } else if ((lead + 1 < bound) && (*(lead + 1) == UCHAR_NL)) {
-                    /* end of CRLF-terminated line */
-                    nread -= 1; /* CRLF will be converted to just LF */
-                    length = lead - trail;
-                    break;
-                } else {
-                    /* bare CR is translated to LF without any need to move other data */
-                    *lead = UCHAR_NL;
+            if (c == UCHAR_CR) {
+                if (src >= bound) {
+                    /* whether this is a lone CR or the start of a CR LF pair will be known only at the next read */
+                    scanner->cr_pending = 1;
+                } else if (*src == UCHAR_NL) {
+                    src += 1;
                 }
-            } while (CIF_TRUE);
+                c = UCHAR_NL;
+            }
+            *(dest++) = c;
+        }
 
-            /* convert one line terminator */
-            u_memmove(dest, trail, length);
-            dest += length;
+        nread = dest - start;
+        if (nread == 0) {
+            /* only the LF of a split CR LF pair was read; get some real data */
+            return get_more_chars(scanner);
         }
 
         /* bookkeeping */
